@@ -192,7 +192,34 @@ func c06Template(c *Ctx, sl c06slot, s string, local map[string]int64) {
 			}
 		}
 	}
+	// the accepted statement printed by the library (which quotes the value
+	// again) reads back as the same statement
+	if expressible(s) && len(s) < 1<<16 {
+		var printed string
+		var back *influxql.Query
+		var err2 error
+		if p, pv, st := mon.Try(func() { printed = qy.String(); back, err2 = influxql.ParseQuery(unredactAll(printed, qy)) }); p {
+			d := det(fmt.Sprint(pv))
+			d["stack"] = st
+			r.Violation("panic-in-print", d)
+			return
+		}
+		if err2 != nil || dumpOf(back) != dumpOf(qy) {
+			r.Violation("printed-value-reads-back-differently", det(fmt.Sprintf("printed as %q (err %v)", trunc(printed, 300), err2)))
+			return
+		}
+		local["template.printed-and-read-back"]++
+	}
 	local["template.ok"]++
+}
+
+// unredactAll puts passwords back into a printed query (C15 is about their
+// absence; here only the rest of the text matters).
+func unredactAll(printed string, q *influxql.Query) string {
+	for _, st := range q.Statements {
+		printed = unredact(printed, st)
+	}
+	return printed
 }
 
 // c06Multi checks multi-part names.
@@ -222,6 +249,11 @@ func c06Multi(c *Ctx, parts [3]string, local map[string]int64) {
 		r.Violation("multi-part-source-wrong", det(text, fmt.Sprintf("got %#v", m)))
 		return
 	}
+	// the statement's own printer quotes the parts again: same parts, same rest
+	if back, err2, pan2, _, _ := parseQuery1(st.String()); pan2 || err2 != nil || dumpOf(back) != dumpOf(st) {
+		r.Violation("multi-part-source-wrong", det(text, fmt.Sprintf("printed as %q, which reads back differently (err %v)", trunc(st.String(), 300), err2)))
+		return
+	}
 	// as INTO target
 	text = "SELECT v INTO " + q + " FROM m WHERE sentinel = 1"
 	st, err, pan, pv, _ = parseQuery1(text)
@@ -245,6 +277,10 @@ func c06Multi(c *Ctx, parts [3]string, local map[string]int64) {
 	ref, ok := sel.Fields[0].Expr.(*influxql.VarRef)
 	if !ok || len(sel.Fields) != 2 || ref.Val != parts[0]+"."+parts[1]+"."+parts[2] || ref.Type != influxql.Unknown {
 		r.Violation("multi-part-ref-wrong", det(text, fmt.Sprintf("got %v", sel.Fields[0].Expr)))
+		return
+	}
+	if back, err2, pan2, _, _ := parseQuery1(st.String()); pan2 || err2 != nil || dumpOf(back) != dumpOf(st) {
+		r.Violation("multi-part-ref-wrong", det(text, fmt.Sprintf("printed as %q, which reads back differently (err %v)", trunc(st.String(), 300), err2)))
 		return
 	}
 	local["multi.ok"]++
@@ -382,7 +418,7 @@ func checkC06(c *Ctx) (string, bool, []string) {
 		r.MergeCounts(local)
 	}
 	// 4. multi-part names
-	partPool := []string{"db", "", "my db", "a.b", `q"t`, `b\s`, "nl\nx", "1st", "é", "select", "Time", "x'y", "/re/", ":m", "$p"}
+	partPool := []string{"db", "", "my db", "a.b", "a.b.c.d", "10.0.0.1", "..", `q"t`, `b\s`, "nl\nx", "1st", "é", "select", "Time", "x'y", "/re/", ":m", "$p"}
 	var triples [][3]string
 	for _, a := range partPool {
 		for _, b := range partPool {
